@@ -39,6 +39,11 @@ type Case struct {
 	Adapt  bool   `json:"adapter,omitempty"` // cache-wait: custom CacheStore through the adapter (cache.go) instead of the lru
 	Multi  bool   `json:"multi,omitempty"`
 	DoneBy string `json:"done_by,omitempty"` // done-ctx: cancel | deadline
+	// two-callers: caller A (context deadline) is waiting for a stalled reply on an idle connection when caller B
+	// arrives with another kind of call: cancel (cancel-only context) | bg (context.Background) | noreply (SUBSCRIBE) |
+	// pipelining (the connection is pipelining already).  A must return at its deadline with the context's error:
+	// nobody but A may touch the connection (and its deadline) while A uses it synchronously.
+	B string `json:"b,omitempty"`
 }
 
 const slack = 250 * time.Millisecond
@@ -48,7 +53,7 @@ const hangBound = 12 * time.Second
 var sweep = []int{20, 50, 100, 200, 400}
 
 func genCase(r *gen.Rand, i int) any {
-	kinds := []string{"pipe-deadline", "pipe-cancel", "multi-deadline", "sync-deadline", "done-ctx", "flow-put", "cache-wait", "retry-cancel", "retry-skip", "retry-wait"}
+	kinds := []string{"pipe-deadline", "pipe-cancel", "multi-deadline", "sync-deadline", "done-ctx", "flow-put", "cache-wait", "retry-cancel", "retry-skip", "retry-wait", "two-callers"}
 	c := Case{Kind: kinds[i%len(kinds)], Queue: gen.Pick(r, []string{"ring", "flowbuffer"}), Ms: gen.Pick(r, sweep), N: r.Range(2, 4)}
 	if c.Kind == "flow-put" {
 		c.Queue = "flowbuffer"
@@ -60,6 +65,9 @@ func genCase(r *gen.Rand, i int) any {
 	}
 	if c.Kind == "cache-wait" {
 		c.Adapt = r.Bool()
+	}
+	if c.Kind == "two-callers" {
+		c.B = []string{"cancel", "bg", "noreply", "pipelining"}[(i/len(kinds))%4]
 	}
 	return c
 }
@@ -209,6 +217,112 @@ func once(c Case) (at attempt) {
 			sent = "[9]"
 		}
 		at.coq = sched(flow, 1024, steps, "[(2, ["+exp+"])]", sent)
+	case "two-callers":
+		tagB := pipe.Tag(3, 0)
+		s.Fault = func(fc *fakeredis.Conn, cseq int, argv []string) fakeredis.Action {
+			for _, a := range argv {
+				if strings.Contains(a, tag) || strings.Contains(a, tagB) {
+					return fakeredis.Action{Drop: true}
+				}
+			}
+			return fakeredis.Action{}
+		}
+		pipelining := c.B == "pipelining"
+		cl, err := newClient(c, s, rec, !pipelining, nil)
+		if err != nil {
+			at.extra = "setup: " + err.Error()
+			return
+		}
+		defer func() { killAll(s); cl.Close() }()
+		if pipelining {
+			cl.Do(bg, cl.B().Ping().Build())
+		} else if st, w, b := rueidis.VerifPipeCounters(cl); st != 0 || w != 0 || b != 0 {
+			at.extra = fmt.Sprintf("setup: the connection is not idle in its synchronous phase (state=%d waits=%d bgState=%d)", st, w, b)
+			return
+		}
+		ctxA, cancelA := context.WithTimeout(bg, d)
+		defer cancelA()
+		doneA := make(chan struct{})
+		at.started = time.Now()
+		go func() {
+			at.err = cl.Do(ctxA, cl.B().Echo().Message(tag).Build()).NonRedisError()
+			at.took = time.Since(at.started)
+			close(doneA)
+		}()
+		for i := 0; !reached(s, tag) && i < 2000; i++ {
+			time.Sleep(500 * time.Microsecond)
+		}
+		ctxB, cancelB := bg, context.CancelFunc(func() {})
+		ctxkB, cmdB := "CtxBg", "KI 3 2 0"
+		cmd := cl.B().Echo().Message(tagB).Build()
+		switch c.B {
+		case "cancel":
+			ctxB, cancelB = context.WithCancel(bg)
+			ctxkB = "CtxCancel"
+		case "noreply":
+			cmd = cl.B().Subscribe().Channel(tagB).Build()
+			cmdB = "KI 3 2 1"
+		}
+		defer cancelB()
+		doneB := make(chan struct{})
+		go func() { cl.Do(ctxB, cmd); close(doneB) }()
+		// B has had time to reach its queue; is A still the only user of the connection?
+		bgDuringSync := false
+		if pipelining {
+			for i := 0; !reached(s, tagB) && i < 2000; i++ {
+				time.Sleep(500 * time.Microsecond)
+			}
+		} else {
+			time.Sleep(5 * time.Millisecond)
+			_, _, bgst := rueidis.VerifPipeCounters(cl)
+			select {
+			case <-doneA:
+			default:
+				bgDuringSync = bgst == 1 && time.Now().Before(at.started.Add(d))
+			}
+		}
+		select {
+		case <-doneA:
+		case <-time.After(d + 3*time.Second):
+			killAll(s) // A ignored its deadline: free it, its lateness is reported by the caller of once
+			<-doneA
+		}
+		at.ctxErr = ctxErrOf(ctxA)
+		at.sent = reached(s, tag)
+		sentB := reached(s, tagB)
+		killAll(s)
+		select {
+		case <-doneB:
+		case <-time.After(3 * time.Second):
+			at.extra = "caller B did not return after the connection was closed"
+		}
+		if bgDuringSync {
+			at.extra = appendS(at.extra, "the background workers were started (bgState = 1) while caller A was using the connection synchronously: they clear the connection deadline A derived from its context")
+		}
+		sent := "[2]"
+		if sentB {
+			sent = "[2; 3]"
+		}
+		var steps string
+		if pipelining {
+			sent = "[9; 2; 3]"
+			if !sentB {
+				sent = "[9; 2]"
+			}
+			steps = prelude() + "; LCall 2 [KI 2 2 0] false CtxDeadline; LIncr 2; LLoad 2; LPut 2; LWNext; LWFlush; " +
+				fmt.Sprintf("LCall 3 [%s] false %s; LIncr 3; LLoad 3; LPut 3; LWNext; LWFlush; LCtxDone 2; LAbort 2", cmdB, ctxkB)
+		} else {
+			// what was observed, step by step; a background start during A's synchronous section is the step LBg of
+			// caller B, which the model does not allow there (the schedule is rejected)
+			obsBg := ""
+			if bgDuringSync {
+				obsBg = "LBg 3; "
+			}
+			steps = "LCall 2 [KI 2 2 0] false CtxDeadline; LIncr 2; LLoad 2; LSyncW 2; " +
+				fmt.Sprintf("LCall 3 [%s] false %s; LIncr 3; LLoad 3; %sLPut 3; ", cmdB, ctxkB, obsBg) +
+				"LCtxDone 2; LSyncFail 2 true; LDecr 2; LBgAfter 2; LDecr 2"
+		}
+		at.coq = sched(flow, 1024, steps, "[(2, ["+cls(at.err, at.ctxErr)+"])]", sent)
 	case "sync-deadline":
 		stall(s, tag)
 		cl, err := newClient(c, s, rec, true, nil)
@@ -469,7 +583,7 @@ func run(ci any) (res obs.Result) {
 			res.Oracle = fmt.Sprintf("the call did not return within %v although its context was done at %v", hangBound, d)
 			res.Class = "hang"
 			res.Nontrivial = true
-			res.Sig = fmt.Sprint(c.Kind, c.Queue, c.Ms, c.N, c.Adapt, c.Multi, c.DoneBy)
+			res.Sig = fmt.Sprint(c.Kind, c.Queue, c.Ms, c.N, c.Adapt, c.Multi, c.DoneBy, c.B)
 			return
 		}
 		verdict = ""
@@ -477,6 +591,9 @@ func run(ci any) (res obs.Result) {
 			verdict = at.extra
 			if strings.HasPrefix(at.extra, "setup") {
 				res.Class = "setup"
+			}
+			if strings.Contains(at.extra, "background workers were started") {
+				res.Class = "sync-and-background"
 			}
 			break
 		}
@@ -502,7 +619,7 @@ func run(ci any) (res obs.Result) {
 	res.Oracle = verdict
 	res.Coq = at.coq
 	res.Nontrivial = true
-	res.Sig = fmt.Sprint(c.Kind, c.Queue, c.Ms, c.N, c.Adapt, c.Multi, c.DoneBy)
+	res.Sig = fmt.Sprint(c.Kind, c.Queue, c.Ms, c.N, c.Adapt, c.Multi, c.DoneBy, c.B)
 	res.Obs = map[string]any{"took_ms": at.took.Milliseconds(), "err": fmt.Sprint(at.err), "ctx": fmt.Sprint(at.ctxErr), "sent": at.sent}
 	return
 }
